@@ -1012,4 +1012,112 @@ theorem released_means_restored (s : JS) (t : TRO) (htr : s.tr = some t) (hh : t
   · obtain ⟨k, s', hk, hrun', hrest⟩ := finalizing_converges 9 s t htr hh hd hp (fun _ _ => leftover_le _ _ _)
     exact ⟨k, s', by omega, hrun', hrest⟩
 
+
+/-! ## 7. Starting points, the finding, non-vacuity (tests on literals, by kernel evaluation) -/
+
+/-- a state in which no rollout is rolling satisfies `BoundWhileRolling` (e.g. all rollouts Healthy) -/
+theorem bwr_init (s : JS) (h : ∀ (i : Nat) (e : Entry), s.ros[i]? = some e → rolling e.w.ro = false) : BoundWhileRolling s := by
+  intro i e he _ _ hr
+  rw [h i e he] at hr; cases hr
+
+/-- a state without a TrafficRouting, or with one that is not Finalizing, satisfies `FinalizingUnheld` -/
+theorem fu_init (s : JS) (h : ∀ t, s.tr = some t → t.phase ≠ .finalizing) : FinalizingUnheld s :=
+  fun t ht hp => absurd hp (h t ht)
+
+def exStep : RolloutSM.Step := { replicas := .pct 100, weight := none, pause := .manual }
+def exSub (state : RolloutSM.StepState) : RolloutSM.Sub :=
+  { curIdx := 1, nextIdx := -1, state := state, finStep := .empty, canaryRev := "v2", stableRev := "v1", podHash := "v2", hash := .same,
+    observedRolloutID := "v2", observedGen := 2, lastUpdate := .elapsed }
+def exRo (reason : RolloutSM.PReason) (sub : Option RolloutSM.Sub) : RolloutSM.Rollout :=
+  { style := .canary, steps := [exStep], paused := false, disabled := false, deleting := false, hasFinalizer := true, hasTraffic := false,
+    disableGen := false, rollbackInBatch := false, grace := 3, phase := .progressing, reason := reason, condAge := .elapsed, succeeded := none,
+    term := .none, sub := sub }
+def exWl : RolloutSM.WL :=
+  { consistent := true, inProgressAnno := true, canaryRev := "v2", stableRev := "v1", inRollback := false, replicas := 5, generation := 2 }
+def exEntry (reason : RolloutSM.PReason) (sub : Option RolloutSM.Sub) : Entry :=
+  { bound := true, gone := false, w := { ro := exRo reason sub, wl := some exWl, br := none, net := default, mem := Mem.empty } }
+def exRouted : Net := { stableExists := true, stableSel := none, canarySvc := none, stableIngress := true, canaryIng := some 20 }
+def exPlain : Net := { stableExists := true, stableSel := none, canarySvc := none, stableIngress := true, canaryIng := none }
+def exTR (phase : TRSM.Phase) (holders : List Nat) : TRO :=
+  { deleting := false, hasFinalizer := true, holders := holders, phase := phase, weight := some 20, grace := 3, hasRef := true }
+
+/-- rollout 0 has run through its steps (Progressing / Finalising, cursor empty) and is the only holder of a routed TrafficRouting -/
+def exLast : JS := { tr := some (exTR .progressing [0]), net := exRouted, mem := Mem.empty, ros := [exEntry .finalising (some (exSub .completed))] }
+
+/-- **3 (full strength) is FALSE on the unchanged code — finding `completedBeforeRestored`.**  The clause as briefed:
+    "the Rollout's own clean-up tasks start only after its finalizer is off the TrafficRouting *and the TrafficRouting
+    reports Healthy (or is gone)*".  `finalizeTrafficRouting` removes the finalizer and returns; `doFinalising` goes on
+    with the release manager's clean-up in the same reconcile.  Witness: the last holder finishes — after ONE reconcile
+    its finalizer is off (`finaliseFinalizerOff` holds), its own clean-up has moved (in-progress annotation stripped, cursor
+    at the first task), while the TrafficRouting is still Progressing with the canary route (weight 20) in place.
+    The same input is replayed on the real controllers on every run (corpus `trbind/finding-completedBeforeRestored`). -/
+theorem finalise_waits_for_restore_full_FALSE :
+    (match step exLast (.ro 0 .none), exLast.ros[0]? with
+     | some s', some e =>
+       (match s'.ros[0]? with
+        | some e' =>
+          finaliseFinalizerOff 0 (position (roWorld exLast e)) e e' s'.tr &&
+          !finaliseWaitsForRestore 0 (position (roWorld exLast e)) e e' s'.tr &&
+          guardCompletedBeforeRestored (position (roWorld exLast e)) e e' s'.tr &&
+          s'.net.canaryIng == some 20 && (match s'.tr with | some t => t.phase == .progressing && t.holders == [] | none => false)
+        | none => false)
+     | _, _ => false) = true := by
+  decide +kernel
+
+/-- … and `released_means_restored` on that witness: three quiet rounds later the route is withdrawn and the
+    TrafficRouting is Healthy (grace period 3 s: Finalizing, withdraw, wait, done) -/
+example :
+    (run exLast (.ro 0 .none :: quiet 4)).map (fun s => s.net.canaryIng == none &&
+      (match s.tr with | some t => t.phase == .healthy && t.holders == [] | none => false)) = some true := by
+  decide +kernel
+
+/-- rollouts 0 and 1 share the TrafficRouting; 0 has finished, 1 is rolling -/
+def exShared : JS :=
+  { tr := some (exTR .progressing [0, 1]), net := exRouted, mem := Mem.empty,
+    ros := [exEntry .finalising (some (exSub .completed)), exEntry .inRolling (some (exSub .paused))] }
+
+/-- hypotheses of `two_rollouts_share` / `bound_while_rolling` are met by an ordinary state … -/
+example : HeldBy 1 exShared := ⟨exTR .progressing [0, 1], rfl, by decide, rfl, by decide, by decide⟩
+example : BoundWhileRolling exShared := by
+  intro i e he _ _ hr
+  match i, he with
+  | 0, he => cases he; revert hr; decide
+  | 1, he => cases he; decide
+  | (n + 2), he => cases he
+
+/-- … and the first holder finishing leaves the second one holding a routed TrafficRouting (test of `two_rollouts_share`) -/
+example :
+    (run exShared ([.ro 0 .none] ++ quiet 3)).map (fun s => s.net.canaryIng == some 20 &&
+      (match s.tr with | some t => t.phase == .progressing && t.holders == [1] | none => false)) = some true := by
+  decide +kernel
+
+/-- a bound rollout in Initializing (verify wait over) facing a Healthy TrafficRouting: the first reconcile adds the
+    finalizer and waits, the second one goes on to InRolling (test of `rollout_waits_for_binding`) -/
+def exJoin (phase : TRSM.Phase) : JS :=
+  { tr := some (exTR phase []), net := exPlain, mem := Mem.empty, ros := [exEntry .initializing none] }
+
+example :
+    (run (exJoin .healthy) [.ro 0 .none]).map (fun s =>
+      (match s.tr, s.ros[0]? with | some t, some e => t.holders == [0] && e.w.ro.reason == .initializing | _, _ => false)) = some true ∧
+    (run (exJoin .healthy) [.ro 0 .none, .ro 0 .none]).map (fun s =>
+      (match s.tr, s.ros[0]? with | some t, some e => t.holders == [0] && e.w.ro.reason == .inRolling | _, _ => false)) = some true := by
+  constructor <;> decide +kernel
+
+/-- no resurrection: facing a Finalizing TrafficRouting the rollout waits without touching it; with a failing update it
+    reports the error; without a TrafficRouting it waits -/
+example :
+    (run (exJoin .finalizing) [.ro 0 .none, .ro 0 .none]).map (fun s =>
+      (match s.tr, s.ros[0]? with | some t, some e => t.holders == [] && e.w.ro.reason == .initializing | _, _ => false)) = some true ∧
+    (run { (exJoin .healthy) with tr := none } [.ro 0 .none]).map (fun s =>
+      (match s.ros[0]? with | some e => s.tr.isNone && e.w.ro.reason == .initializing | _ => false)) = some true := by
+  constructor <;> decide +kernel
+
+/-- a TrafficRouting deleted while a rollout holds it: Terminating, route withdrawn, own finalizer off — and still visible;
+    it disappears when the holder lets go (test of `tr_finalizer_guard` / `held_stays_visible`) -/
+example :
+    (run exLast ([.deleteTR] ++ quiet 4)).map (fun s => s.net.canaryIng == none &&
+      (match s.tr with | some t => t.deleting && !t.hasFinalizer && t.holders == [0] && t.phase == .terminating | none => false)) = some true ∧
+    (run exLast ([.deleteTR] ++ quiet 4 ++ [.ro 0 .none])).map (fun s => s.tr.isNone) = some true := by
+  constructor <;> decide +kernel
+
 end RV.Props.TRBind
